@@ -33,6 +33,6 @@ func init() {
 		assumptions:   []string{"the reference semantics is the interpreter's reading of doc/note/*.md; a disagreement is triaged as 'is the doc ambiguous?' before it is called a defect", "multi-byte coroutine writers (known finding T3) are not generated"},
 		minNontrivial: 300,
 		quick:         tier{jobs: []job{{name: "differential", run: "^TestPropC04$", shards: 16, checks: 4, timeout: 30 * time.Minute}}},
-		thorough:      tier{jobs: []job{{name: "differential", run: "^TestPropC04$", shards: 16, checks: 120, timeout: 240 * time.Minute}}},
+		thorough:      tier{jobs: []job{{name: "differential", run: "^TestPropC04$", shards: 16, checks: 80, timeout: 240 * time.Minute}}},
 	})
 }
